@@ -100,11 +100,12 @@ def first_token_diff(tin, tout, lenient_lines=()):
     return None
 
 
-def integral_float_in_uninterpreted(blocks, toks):
-    """known finding: in IF_DATA that no definition describes a float literal with an integral value (88036.0)
-    is written as 88036 and comes back as an integer"""
+def integral_float_sensitive(blocks, toks, ndefs):
+    """known finding D22: a float literal with an integral value (88036.0) is written as 88036.  Where the notation
+    decides how the number is read - content that no definition describes, or two definitions in force that type the
+    position differently - the number comes back as an integer"""
     for b in blocks:
-        if b["valid"]:
+        if b["valid"] and ndefs < 2:
             continue
         for t in toks[b["slice"][0]:b["slice"][1]]:
             if t[0] == "num" and t[1][:2] not in ("0x", "0X") and any(c in t[1] for c in ".eE"):
@@ -224,13 +225,8 @@ def block_line_ranges(tokens, slices):
     return out
 
 
-def run(tier, selftest):
-    t0 = time.time()
-    rep = vlib.Reporter(PID)
-    binp = vlib.build_harness()
-    rng = random.Random(vlib.seed() * 18 + 18)
-    plan = build_plan(tier, rng)
-
+def process(plan, rep, binp):
+    """run the plan through the library and judge everything; returns the collected facts"""
     # 1. type trees (hook)
     tcases = [{"id": i, "text": "", "strict": False, "a2ml": ag.render(d), "want": ["a2mltree"]} for i, (d, _, _) in enumerate(plan.types)]
     inp = os.path.join(vlib.scratch(), "c18_types.ndjson")
@@ -261,7 +257,8 @@ def run(tier, selftest):
     nblocks = nconf = 0
     observed_values = {}
     for case, meta, r in zip(plan.docs, plan.meta, dres):
-        replay = {"kind": "doc", "label": meta["label"], "text": case["text"], "a2ml": case.get("a2ml"), "strict": case["strict"]}
+        replay = {"kind": "doc", "label": meta["label"], "text": case["text"], "a2ml": case.get("a2ml"), "strict": case["strict"],
+                  "defs": meta["defs"], "blocks": meta["blocks"]}
         if r.get("not_run"):
             continue
         if "panic" in r or "tokens" not in r:
@@ -271,22 +268,23 @@ def run(tier, selftest):
         slices = ag.ifdata_slices(toks)
         single = "/single-" in meta["label"]
         if single:
-            # an unbalanced block: the parser runs on into the rest of the document
-            slices = [(slices[0][0], len(toks))]
+            # content that is not balanced: the parser runs on into the rest of the document, so the whole document is
+            # judged (Run of Parser.tla with the definitions of the document) instead of the block alone
+            if r.get("ok"):
+                out = {"ok": True, "diags": [[d[0], d[1]] for d in r["diags"]]}
+            else:
+                out = {"ok": False, "e": [r["e"][0], r["e"][1]]}
+            ddefs = [{"decls": d, "infile": case.get("a2ml") is None} for d in meta["defs"]]
+            events.append({"doc": 1, "toks": ag.tokens_event(toks), "strict": case["strict"], "ddefs": ddefs, "out": out})
+            emeta.append(("doc", meta["label"], meta["blocks"][0], replay))
+            nblocks += 1
+            continue
         if len(slices) != len(meta["blocks"]) and r.get("ok"):
             vlib.tool_error(f"block bookkeeping: {len(slices)} slices, {len(meta['blocks'])} blocks in {meta['label']}")
         # blocks in document order: the document lists the sites in the order of a2mlgen.SITES
         order = sorted(range(len(meta["blocks"])), key=lambda i: (ag.SITES.index(meta["blocks"][i]["site"]), i))
         if not r.get("ok"):
-            # a hard error: documents with one block
-            if len(meta["blocks"]) != 1:
-                rep.violation(f"doc:error:{r['e'][0]}", f"a document with balanced IF_DATA blocks is refused ({meta['label']}): {r['e'][2]}", replay)
-                continue
-            a, b = slices[0]
-            events.append({"toks": ag.tokens_event(toks[a:]), "strict": case["strict"], "defs": meta["defs"], "conf": False,
-                           "out": {"ok": False, "e": [r["e"][0], r["e"][1]]}})
-            emeta.append(("block", meta["label"], meta["blocks"][0], replay))
-            nblocks += 1
+            rep.violation(f"doc:error:{r['e'][0]}", f"a document with balanced IF_DATA blocks is refused ({meta['label']}): {r['e'][2]}", replay)
             continue
         FLOATS_IN_FORCE[0] = any(k in json.dumps(meta["defs"]) for k in ('"float"', '"double"'))
         ranges = block_line_ranges(toks, slices)
@@ -308,28 +306,26 @@ def run(tier, selftest):
             claimed |= {i for i, d in enumerate(r["diags"]) if lo <= d[1] <= hi}
             events.append({"toks": ag.tokens_event(toks[a:e]), "strict": case["strict"], "defs": meta["defs"], "conf": b["conf"],
                            "out": {"ok": True, "valid": o["valid"], "present": o["items"] is not None, "diags": diags}})
-            if single:
-                events[-1]["nodiag"] = 1            # the diagnostics of the rest of the document are not told apart
             emeta.append(("block", meta["label"], b, replay))
             observed_values[len(events) - 1] = o["items"]
             nblocks += 1
             nconf += 1 if b["conf"] else 0
             cleanup_blocks.append({"id": pos + 1, "valid": o["valid"], "site": b["site"], "items": o["items"], "slice": (a, e)})
         stray = [d for i, d in enumerate(r["diags"]) if i not in claimed]
-        if stray and not single:
+        if stray:
             rep.violation(f"doc:stray-diag:{stray[0][0]}", f"diagnostic outside every IF_DATA block ({meta['label']}): {stray[0][2]}", replay)
         # 3. write / reload
-        if single:
-            continue
         if "written" in r:
             lenient = {d[1] for d in r["diags"] if d[0] == "UnexpectedTokenType"}
             d = first_token_diff(sig_tokens(case["text"]), sig_tokens(r["written"]), lenient)
             if d:
                 rep.violation("write:tokens", f"written text differs from the input ({meta['label']}): {d}", replay)
-            for k, c in enumerate(r.get("cycle", [])):
+            # (where an identifier was tolerated in place of a string the written text has a string there: the input did
+            # not conform and what the second load makes of the corrected text is not the subject of the property)
+            for k, c in enumerate([] if lenient else r.get("cycle", [])):
                 if c.get("load") != "ok" or not c.get("model_eq") or not c.get("text_eq"):
                     sig = "write:cycle"
-                    if c.get("load") == "ok" and c.get("text_eq") and integral_float_in_uninterpreted(cleanup_blocks, toks):
+                    if c.get("load") == "ok" and c.get("text_eq") and integral_float_sensitive(cleanup_blocks, toks, len(meta["defs"])):
                         sig = "write:cycle:uninterpreted-integral-float"
                     rep.violation(sig, f"load/write cycle {k + 1} is not stable ({meta['label']}): {c}", replay)
                     break
@@ -376,6 +372,8 @@ def run(tier, selftest):
             rep.violation(f"type:{'+'.join(names)}", f"type tree of {label} differs from Resolve: {names}", {"kind": "type", "decls": b, "text": ag.render(b)})
         elif kind == "cleanup":
             rep.violation("cleanup:" + "+".join(names), f"ifdata_cleanup did not remove exactly the invalid blocks ({label}): {events[k]['blocks']} -> {events[k]['after']}", replay)
+        elif kind == "doc":
+            rep.violation(f"doc:{'+'.join(names)}:{b['what']}", f"document with unbalanced IF_DATA content ({b['what']}) of {label} disagrees with Parser.tla / A2ml.tla on {names}: tokens {' '.join(b['tokens'])[:200]}; observed {events[k]['out']}", dict(replay, block=b))
         elif names == ["Diagnostics"]:
             # which diagnostics an abandoned attempt leaves behind is not part of the property: the model is out of date
             drift.append(label)
@@ -396,9 +394,22 @@ def run(tier, selftest):
 
     if drift:
         print(f"SPEC-DRIFT: {len(drift)} IF_DATA blocks carry other diagnostics than A2ml.tla predicts (validity, values, text agree); first: {drift[0]}", flush=True)
+    return dict(events=events, emeta=emeta, rejected=rejected, trees=trees, tr=tr, nblocks=nblocks, nvals=nvals, drift=drift)
+
+
+def run(tier, selftest):
+    t0 = time.time()
+    rep = vlib.Reporter(PID)
+    binp = vlib.build_harness()
+    rng = random.Random(vlib.seed() * 18 + 18)
+    plan = build_plan(tier, rng)
+
+    facts = process(plan, rep, binp)
+    events, emeta, rejected, trees, tr = facts["events"], facts["emeta"], facts["rejected"], facts["trees"], facts["tr"]
+    nblocks, nvals, drift = facts["nblocks"], facts["nvals"], facts["drift"]
     binding = None
     if selftest or tier == "thorough":
-        i0 = next(i for i, e in enumerate(events) if "toks" in e and e["out"]["ok"] and e["out"]["valid"])
+        i0 = next(i for i, e in enumerate(events) if "toks" in e and "doc" not in e and e["out"]["ok"] and e["out"]["valid"])
         e1 = json.loads(json.dumps(events[i0]))
         e1["out"]["valid"] = False
         i1 = next(i for i, e in enumerate(events) if "ty" in e and e["obs"]["ok"] and e["obs"]["t"]["k"] in ("tu", "ts"))
@@ -414,10 +425,10 @@ def run(tier, selftest):
 
     whats = {}
     for kind, _, b, _ in emeta:
-        if kind == "block":
+        if kind in ("block", "doc"):
             whats[b["what"]] = whats.get(b["what"], 0) + 1
-    nvalid = sum(1 for e in events if "toks" in e and e["out"]["ok"] and e["out"]["valid"])
-    ninvalid = sum(1 for e in events if "toks" in e and e["out"]["ok"] and not e["out"]["valid"])
+    nvalid = sum(1 for e in events if "toks" in e and "doc" not in e and e["out"]["ok"] and e["out"]["valid"])
+    ninvalid = sum(1 for e in events if "toks" in e and "doc" not in e and e["out"]["ok"] and not e["out"]["valid"])
     if nvalid < 100 or ninvalid < 100:
         vlib.tool_error(f"vacuity: {nvalid} valid / {ninvalid} invalid blocks")
     cov = {
@@ -467,18 +478,13 @@ def replay(path):
         if rj:
             rep.violation("type:" + "+".join(rj[0]), "type tree differs from Resolve", c)
     else:
-        print("document:\n" + c["text"])
-        inp = os.path.join(vlib.scratch(), "c18_replay.ndjson")
-        outp = os.path.join(vlib.scratch(), "c18_replay.out")
-        case = {"id": 0, "text": c["text"], "strict": c["strict"], "want": ["ifdata", "write", "cycle", "cleanup"]}
+        # the document again, through the same procedure as in run()
+        plan = Plan()
+        case = {"id": 0, "text": c["text"], "strict": c["strict"], "want": ["tokens", "ifdata", "cleanup", "write", "cycle"]}
         if c.get("a2ml"):
             case["a2ml"] = c["a2ml"]
-        vlib.write_ndjson(inp, [case])
-        vlib.run_harness(binp, ["load-op", "--cases", inp, "--out", outp])
-        o = json.loads(open(outp).readline())
-        print(json.dumps({k: o.get(k) for k in ("ok", "e", "diags", "cycle")})[:1500])
-        for b in o.get("ifdata", []):
-            print(b["site"], b["idx"], "valid" if b["valid"] else "invalid")
-        print("(run the check itself to judge the document against A2ml.tla)")
+        plan.docs.append(case)
+        plan.meta.append({"defs": c.get("defs", []), "blocks": c.get("blocks", []), "strict": c["strict"], "label": c.get("label", "replay")})
+        process(plan, rep, binp)
     print("replay:", "violation reproduced" if rep.new else "no violation")
     return rep.exit_code()
